@@ -315,6 +315,8 @@ def entries_loop_annot(at_end=None):
                                     'index': i}
         I.ctx.ghost['purge_calls'] = []
         I.ctx.ghost['out_writes_mark'] = len(I.ctx.events)
+        if 'yielded' in I.ctx.ghost:
+            I.ctx.ghost['yield_mark'] = len(I.ctx.ghost['yielded'])
 
     def at_iteration_end(I, env, seq, i, x):
         if at_end is not None:
